@@ -250,7 +250,8 @@ impl KeyKeeper {
                                 self.agent_status_shared_state.clone(),
                             ).await;
                             let slept_time_in_millisec = time.elapsed().as_millis();
-                            let continue_sleep = sleep.as_millis() - slept_time_in_millisec;
+                            let continue_sleep =
+                                sleep.as_millis().saturating_sub(slept_time_in_millisec);
                             if continue_sleep > 0 {
                                 let continue_sleep = Duration::from_millis(continue_sleep as u64);
                                 let message = format!("poll_secure_channel_status task notified but secure channel state is '{}', continue with sleep wait for {:?}.", current_state, continue_sleep);
